@@ -1,6 +1,6 @@
 SPECIFICATION GSpec
 CONSTANTS
-  ITEMS = {"bal0", "bal4", "l1_0", "l1_4", "lt_0", "lt_4", "ord_c1", "ord_c2", "ord_c3", "ord_c4"}
+  ITEMS = {"bal0", "bal1", "bal3", "bal4", "l1_0", "l1_4", "lt_0", "lt_4", "ord_c1", "ord_c2", "ord_c3", "ord_c4"}
   TIMES = {1, 2, 3, 4}
   VALUES = {5, 6, 7, 8}
   MaxLen = 25
